@@ -623,6 +623,18 @@ func runCrash(out string, seed int64, nHist int, tier string, guard *h.StdioGuar
 		var ops []histOp
 		mergeReturned := []int{} // events count at each Merge return
 		nops := 3 + rng.Intn(4)
+		// the first histories of a run are fixed: a merge of two (three) sources whose commit fails at the removal of its
+		// first (second) source
+		var script []histOp
+		switch hi {
+		case 1:
+			script = []histOp{{Kind: "flush"}, {Kind: "flush"}, {Kind: "merge", Fault: "update.remove#1"}, {Kind: "flush"}}
+		case 2:
+			script = []histOp{{Kind: "flush"}, {Kind: "flush"}, {Kind: "flush"}, {Kind: "merge", Fault: "update.remove#2"}}
+		}
+		if script != nil {
+			nops = len(script)
+		}
 		bno := 0
 		flushes := 0
 		for oi := 0; oi < nops; oi++ {
@@ -634,16 +646,30 @@ func runCrash(out string, seed int64, nHist int, tier string, guard *h.StdioGuar
 			if flushes >= 2 && rng.Intn(3) == 0 {
 				kind = "merge"
 			}
+			if script != nil {
+				kind = script[oi].Kind
+			}
 			op := histOp{Kind: kind}
-			if rng.Intn(3) == 0 {
+			if script != nil {
+				if script[oi].Fault != "" {
+					op.Fault = script[oi].Fault
+					mu.Lock()
+					fault = op.Fault
+					mu.Unlock()
+				}
+			} else if rng.Intn(3) == 0 {
 				labels := []string{"reserve", "tmp.created", "write", "sync", "rename", "dirsync"}
 				if kind == "merge" {
-					labels = append(labels, "write", "dirsync", "rename")
+					// ... and the commit itself: the removal of each source by Update
+					labels = append(labels, "write", "dirsync", "rename", "update.remove", "update.remove", "update.remove")
 				}
 				lab := labels[rng.Intn(len(labels))]
 				nth := 1
 				if lab == "write" {
 					nth = 1 + rng.Intn(3)
+				}
+				if lab == "update.remove" {
+					nth = 1 + rng.Intn(2)
 				}
 				op.Fault = fmt.Sprintf("%s#%d", lab, nth)
 				mu.Lock()
